@@ -43,10 +43,13 @@ out.append('')
 out.append('### 9.3 Sensitivity: hand-written mutants (generated from mutants/RESULTS-*.tsv; authors\' own tables are in mutants/RESULTS-*.md)\n')
 out.append('| mutant | existing suite | check exit (1 = caught) |')
 out.append('|---|---|---|')
+equiv = json.load(open('/verif/mutants/equivalent.json')) if os.path.exists('/verif/mutants/equivalent.json') else {}
 for f in sorted(glob.glob('/verif/mutants/RESULTS-*.tsv')):
     for line in open(f):
         parts = line.rstrip('\n').split('\t')
         if len(parts) == 3:
+            if parts[0] in equiv and parts[2] == '0':
+                parts[2] = '0 - ' + equiv[parts[0]]
             out.append('| %s | %s | %s |' % tuple(esc(x) for x in parts))
 out.append('')
 # ---- seeded
